@@ -249,6 +249,30 @@ def correspondence(rep, ctx):
                     for ci, c in enumerate(want_n):
                         if not same(kw["ydata"][ci][1], ref[c]):
                             fail(desc, f"curve {ci} ({c}): {kw['ydata'][ci][1]!r} vs decay(t).numbers = {ref[c]!r}")
+        # fraction curves of a DISPLAYED SUBSET are still shares of the whole decayed inventory
+        for C in (rd.Inventory, rd.InventoryHP):
+            for yu in ("activity_frac", "mass_frac", "mol_frac"):
+                for disp in ("C-14", ["K-40"], ["N-14", "C-14"]):
+                    inv = C({"C-14": 1.0e6, "K-40": 2.0e9}, "num")
+                    desc = f"{C.__name__}({{'C-14': 1e6, 'K-40': 2e9}}).plot(20, 'ky', yunits={yu!r}, display={disp!r})"
+                    rep.case(("frac-display", C.__name__, yu, repr(disp)))
+                    rep.dist("plot:fraction-of-subset")
+                    try:
+                        shared_ax.clear()
+                        inv.plot(20.0, "ky", yunits=yu, display=disp, npoints=3, fig=shared_fig, axes=shared_ax)
+                        kw = dict(captured)
+                        want_n = [disp] if isinstance(disp, str) else list(disp)
+                        for k_ in (0, 1, 2):
+                            ref = readout(inv.decay(kw["time_points"][k_], "ky"), yu, rd)
+                            for ci, c in enumerate(want_n):
+                                if not same(kw["ydata"][ci][k_], ref[c], 4):
+                                    fail(desc, f"curve {c} at t={kw['time_points'][k_]!r}: {kw['ydata'][ci][k_]!r} vs the share in the whole "
+                                               f"decayed inventory {ref[c]!r}")
+                                    raise StopIteration
+                    except StopIteration:
+                        pass
+                    except Exception as e:  # noqa: BLE001
+                        fail(desc, f"raised {type(e).__name__}: {e}")
         # explicit time arrays and refusals
         inv = rd.Inventory({"Mo-99": 1e6, "Sr-90": 2e6}, "num")
         arr = np.array([0.0, 1.5, 2.25, 1000.0, 3.0])
@@ -268,10 +292,15 @@ def correspondence(rep, ctx):
                     rep.case(("explicit-array", C.__name__, str(arr_.dtype), kind_))
                     rep.dist("explicit-time-array")
                     try:
+                        orig_ = arr_.copy()
                         tp, data = invx.decay_time_series(arr_, "h", decay_units=kind_, npoints=77)
                         dfx = invx.decay_time_series_pandas(arr_, "h", decay_units=kind_, npoints=77)
-                        if [float(x) for x in tp] != [float(x) for x in arr_] or [float(x) for x in dfx.index] != [float(x) for x in arr_]:
-                            fail(desc, f"times {list(tp)} are not the supplied ones")
+                        if arr_.dtype != orig_.dtype or arr_.tobytes() != orig_.tobytes():
+                            fail(desc, f"the caller's time array was changed: {orig_.tolist()} -> {arr_.tolist()}")
+                            arr_[...] = orig_
+                            continue
+                        if [float(x) for x in tp] != [float(x) for x in orig_] or [float(x) for x in dfx.index] != [float(x) for x in orig_]:
+                            fail(desc, f"times {list(tp)} are not the supplied ones {orig_.tolist()} (in the supplied order)")
                             continue
                         for k_ in range(len(arr_)):
                             ref = readout(invx.decay(float(arr_[k_]), "h"), kind_, rd)
